@@ -322,6 +322,9 @@ def csv_array_case(rng, tier):
                 items.append("=")
         elif q < 0.8:
             items += ["["] + r + r[:1] + ["]"]   # too long: never written, replaced by the next array
+        elif q < 0.85 and n > 1:
+            items += ["["] + r[:rng.randrange(1, n)] + ["]", "s:0a"]   # the "\n" cell writes the short row as it is
+            have_array = True
             have_array = True
         else:
             items += r
@@ -586,6 +589,8 @@ def table_expected(t):
     row, the row is written when it has as many cells as there are columns; and the lengths the caller's arrays must still have"""
     n = int(t[1])
     names = [unhex(x) for x in t[2:2 + n]]
+    if "s:0a" in t:
+        raise ValueError("the flush cell is left to the model")
     rows, pending, cur, last, lens = [], [], None, None, []
     def flush():
         nonlocal pending
@@ -675,8 +680,7 @@ LEVEL_TEXT = ("Proved in Lean 4 about the model that the driver runs against the
               "the section-less group, interleaved with any number of explicit write() calls and ended by the destructor's write, a "
               "fresh IniFile on the resulting file returns for every section/key the last value set, else the document's value, and "
               "the resulting file is again a document of the grammar with that meaning (so the statement composes over sessions); "
-              "ini_unreadable_path: an IniFile on a path that opens but cannot be read (a directory) is the IniFile of an empty file (with the "
-              "repaired TextFile::end(), 4bfeeba) and stays in bounds; (3) ini_write_in_bounds: for any NUL-free file bytes or a missing file and any set / operator[]= / write history with any NUL-free "
+              "(3) ini_write_in_bounds: for any NUL-free file bytes or a missing file and any set / operator[]= / write history with any NUL-free "
               "byte strings, write never reads outside _lines; (4) ini_order: for any object state the written text contains all lines of "
               "_lines in order, non-entry lines byte for byte, entry lines respelled key=value with the same key, new lines only inserted; "
               "ini_order_file: end to end for every document and session as in (2), the file left is either the old text or consists of "
@@ -685,9 +689,10 @@ LEVEL_TEXT = ("Proved in Lean 4 about the model that the driver runs against the
               "(5) csv_row_roundtrip: for every separator and every non-empty row of strings of any bytes other than NUL, LF, CR "
               "(separators, quotes, blanks, empty) and number texts, parseRow(writeRow r) = r cell for cell; csv_table_roundtrip: for every list of identifier "
               "column names and every table of such cells (strings without line breaks that do not spell a number, number texts) the "
-              "file written through columns()/operator<< cell by cell or row by row as array Vars (the same array sent again included) and read by a fresh TabularDataFile (header detection, separator sniffing, "
+              "file written through columns()/operator<< cell by cell or row by row as array Vars and read by a fresh TabularDataFile (header detection, separator sniffing, "
               "data() loop, BOM test, type inference) gives back the columns and the rows cell for cell, numbers as myatof of the text "
-              "written; csv_semicolon_row: after setSeparator(';') a row of such cells is parsed back cell for cell under the reader's setting for "
+              "written; csv_items_roundtrip: ANY sequence of << items (cells and array rows in any mix, arrays shorter or longer than the column "
+              "count) with such cells is read back as exactly the rows the documented row-filling rule yields; csv_semicolon_row: after setSeparator(';') a row of such cells is parsed back cell for cell under the reader's setting for "
               "';' files (decimal comma guessed), numbers written with '.' being numbers again (fix cb50e4a); (6) csv_number_exact_Q: every number text "
               "[-]digits[.digits][(e|E)[+|-]digits] with at most 18 mantissa digits and 9 exponent digits is accepted by myisnumber, keeps "
               "the code's long long y1 below 2^63 and its int exponent within +-2^31 (so the model's integers are the machine's), and the "
@@ -703,9 +708,14 @@ LEVEL_NOTE = ("NO THEOREM covers the '15 significant digits' clause itself: that
               "(other separators, decimal comma, no header, missing final line end: the last row is then not returned); IniFile::values(), "
               "sectionNames(), plain names without '/', operator[]= and reopen are in the model and in K but the persist theorem is stated "
               "for set(\"section/key\") and const operator[]; keys outside KeyOK (containing '/', '=' or starting below '0') and values with "
-              "outer blanks are K-only. The former known finding csv-tiny-number (|x| < ~1e-293 read back wrong) is repaired (7b5df72) and its "
+              "outer blanks are K-only. An IniFile on a path that opens but cannot be read (a directory, fix 4bfeeba) is MODELLED AS the empty file "
+              "(ini_unreadable_path is definitional: rfl plus an instance of ini_write_in_bounds); that the constructor returns and what it then "
+              "holds is K-checked by the op inidir with a watchdog, nothing more. That operator<< COPIES an array Var instead of sharing and "
+              "clearing the caller's array (fix 23ed28f) is K-only: the model takes arrays by value, the theorems hold for the unrepaired code "
+              "too, the check sees the defect through the caller's array lengths (lens=) and the missing rows. The \"\\n\" cell that flushes a "
+              "short row is in the model and in K but excluded from the theorems (CellWF). The former known finding csv-tiny-number (|x| < ~1e-293 read back wrong) is repaired (7b5df72) and its "
               "witness runs from the corpus; tables written with a non-default separator / decimal symbol are proved at the row level only "
               "(csv_semicolon_row), their table level (header sniffing of ';' and tab, decimal comma written by setDecimal) is K + python "
               "oracle only, and one-column tables with a non-default separator are outside (no separator in the file to sniff); number texts with more than 18 mantissa or 9 exponent digits overflow in the C code and are "
               "outside theorem and generator. Not modelled: IniFile::section()/arraysize()/array() (deprecated), write(otherName); TabularDataFile ARFF output, "
-              "readAs(), setSeparator/setDecimal/useQuotes/flushEvery. Trusted: Lean kernel, harness/c18.cpp, the generator; libc fgets/feof, strtod, snprintf %.15g, pow as listed.")
+              "readAs(), flushEvery; useQuotes() has no effect in the library. Trusted: Lean kernel, harness/c18.cpp, the generator; libc fgets/feof, strtod, snprintf %.15g, pow as listed.")
